@@ -60,3 +60,25 @@ package route
 //@   top-ensures isConcat(engine.allNoRoute, engine.RouterGroup.Handlers, engine.noRoute)
 //@   top-ensures isConcat(engine.allNoMethod, engine.RouterGroup.Handlers, engine.noMethod)
 //@   top-ensures len(engine.RouterGroup.Handlers) == old(len(engine.RouterGroup.Handlers)) + len(middleware) && extends(engine.RouterGroup.Handlers, engine.RouterGroup.Handlers)
+
+// ---- C18 (sequential slice of Engine.Shutdown): only the caller that wins the running -> shutdown swap goes on;
+// the wait deadline is installed first, the shutdown hooks are started before the registry and the transport
+// are told to stop, and the transport is asked to shut down with the deadline context.
+//@ ghost var sdSwapped bool
+//@ ghost var sdDeadline bool
+//@ ghost var sdHooks bool
+//@ func Engine.Shutdown(engine, ctx) err
+//@   props C18
+//@   abstract
+//@   noinline
+//@   modifies sdSwapped, sdDeadline, sdHooks
+//@   ghostset-at-entry sdSwapped = false
+//@   ghostset-at-entry sdDeadline = false
+//@   ghostset-at-entry sdHooks = false
+//@   ghostset after CompareAndSwapUint32: sdSwapped = result
+//@   ghostset after WithTimeout: sdDeadline = true
+//@   ghostset after go: sdHooks = true
+//@   assert before go: sdSwapped && sdDeadline
+//@   assert before Deregister: sdSwapped && sdDeadline && sdHooks
+//@   assert before Shutdown: sdSwapped && sdDeadline && sdHooks
+
